@@ -86,7 +86,7 @@ def rules(ctx: Ctx) -> None:
                 node_comps.append((c, d, False))
             else:
                 parent_comps.append((c, d))
-    ctx.floor("node comprehensions in the serialiser", len(node_comps), 2)
+    ctx.floor("node comprehensions in the serialiser", len(node_comps), 1)
     ctx.floor("edge comprehensions in the serialiser", len(edge_comps), 1)
     id_proj = None
     for c, d, compound in node_comps:
